@@ -48,10 +48,10 @@ Lemma redeem_facts cf c s o s1 x :
     tok_active (now s) t = true /\ grant_active (now s) g = true /\ sc = g_scope g /\
     exists d, 1 <= d /\ bump1 c s s1 d.
 Proof.
-  unfold is_redeem. destruct o as [| | |idx kw| | | | | | | | | |]; try discriminate.
+  unfold is_redeem. destruct o as [| | |idx kw| | | | | | | | | | |]; try discriminate.
   destruct (nth_error (parsed s) idx) as [[e|cl c' redir|cl tok sc0]|] eqn:Ep; try discriminate.
   intros Hs H. apply andb_true_iff in H as [Hc Hx]. apply Nat.eqb_eq in Hc. subst c'.
-  destruct x as [| | | | |a r i sc| | | |]; try discriminate.
+  destruct x as [| | | | |a r i sc| | | | |]; try discriminate.
   cbn [step] in Hs. unfold do_process in Hs. rewrite Ep in Hs.
   apply code_process_success in Hs as (g&t&rd&Hf&Hcl&Hr&Hrd&Hact&_&Hga&Hsc&_&Hb). subst redir.
   exists idx, kw, cl, rd, g, t, sc, a, r, i. repeat split; auto.
